@@ -58,6 +58,13 @@ def bind_world(world):
             mod.getDongle = world.get_dongle
     if "hid" in vars(H):
         H.hid = HidStub
+    # ... and in the library itself, should the code under test import it some other way (lazily,
+    # `from hid import hidapi_exit`)
+    try:
+        import hid as _hid
+        _hid.hidapi_exit = HidStub.hidapi_exit
+    except ImportError:
+        pass
     if "time" in vars(LP):
         LP.time = _NoSleep()
 
